@@ -451,6 +451,28 @@ pub open spec fn asm_inv(c: &Context, o: &Output) -> bool {
     ensures toks(r@) == @TOKS(P:q L:word), //# C07,C11,C10 asm.string_instruction_text_carries_its_operand_size
 //@end
 
+// ---- macro arguments (general_string): a memory operand keeps its size keyword, a constant is handed on by its value
+//@action src/lib/preprocessor/preprocessor.rs general_string = quote_byte_length, memory_addr as as_macro_arg_byte_mem
+//@contract
+//@fmttoks
+//@dropunused
+    ensures toks(r@) == @TOKS(L:byte P:m), //# C13,C11 macro.argument_is_handed_on_as_written
+//@end
+
+//@action src/lib/preprocessor/preprocessor.rs general_string = quote_word_length, memory_addr as as_macro_arg_word_mem
+//@contract
+//@fmttoks
+//@dropunused
+    ensures toks(r@) == @TOKS(L:word P:m), //# C13,C11 macro.argument_is_handed_on_as_written
+//@end
+
+//@action src/lib/preprocessor/preprocessor.rs general_string = u_word_num as as_macro_arg_number
+//@contract
+//@fmttoks
+//@dropunused
+    ensures toks(r@) == @TOKS(N:n), //# C13,C11 macro.argument_is_handed_on_as_written
+//@end
+
 // ---- macro use (C16: the position of the OUTERMOST use is frozen around the expansion and released afterwards; C13/C19: a use of a
 // macro that is being expanded is refused, and the set of macros under expansion is restored whatever the expansion ends with).
 // The nested parse of the expansion is the recursive call of this very grammar: its ASSUMED contract is the property itself one
